@@ -105,6 +105,12 @@ claim("C13",
       STATIC_NOTE + "tables/round_guards.json (internal/ot entries). Not decided: the arithmetic identities, GF(2^128) multiplication in accumulate, security of KOS/Doerner.",
       "DESIGN.md §4 C13")
 
+claim("C12",
+      "SSA reject-guard inventory over pkg/paillier, pkg/math/arith, internal/mta; operand-identity rules on the encryption range guard (which Cmp component, which constant, which edge rejects, bound = one right shift by 1 of a value that may-depends on N only, guard dominates all exponentiations); signed-exponent / symmetric-residue rules; branch-region rule on the CRT exponentiation with signed exponents; value-identity role rule on newMta/ProveAffG/ProveAffP (which key encrypts what, clone before in-place multiply, statement/witness wiring, negation after the proof); freshness rule for in-place ciphertext operations over the whole module",
+      "Decides, for every input, the structural necessary conditions that random mid-range tests cannot reach: the range refusal exists, is computed from N itself as floor(N/2), refuses exactly on 'greater' (endpoints accepted) and precedes every use; the plaintext keeps its sign into the exponent and comes back as a symmetric residue; ciphertext validation (range and unit test) and its use by Dec/DecWithRandomness exist; the CRT path inverts exactly for negative exponents and a factorisation-free fallback exists; MtA encrypts one mask under both keys with the prescribed roles and returns its negation; no caller rewrites a ciphertext it does not own. That Dec(Enc(m)) = m, homomorphic results and alpha+beta = a*b hold numerically for all values is a run-time arithmetic fact and is NOT decided (would need execution or a solver, both outside this technique).",
+      STATIC_NOTE + "saferith arithmetic and the CRT recombination formula are trusted. Not decided: numerical exactness on the boundary lattice, agreement with an independent big-integer implementation.",
+      "DESIGN.md §4 C12")
+
 for p, why in {
     "C01": "not built yet", "C02": "not built yet", "C03": "not built yet", "C04": "not built yet", "C05": "not built yet",
     "C06": "not built yet", "C07": "not built yet", "C08": "not built yet", "C09": "not built yet", "C10": "not built yet",
